@@ -7,7 +7,7 @@ from windpyutils.structures import span_set as SS
 
 ID = "C10"
 LEVEL = "exploration"
-RULE = ("Cases: two span lists (0..5 spans, start<=end, endpoints from a small integer grid or quarter-step floats; overlapping, "
+RULE = ("Cases: two span lists (0..5 spans, start<=end, endpoints from a small integer grid or quarter-step floats, or 0..16 spans of length 0..2 over a 41-point grid; overlapping, "
         "nested, repeated, empty), each with one of the four relations (all 16 combinations), both constructor forms. Oracle: brute "
         "force written from the statement (member(x,S) = exists stored y: rel_S(x,y); construction keeps x iff not member(x, "
         "built so far); A op B = the spans of A and B satisfying the membership formula, each once; comparisons = their quantified "
